@@ -364,8 +364,8 @@ def goodBumpMethod (s : MethodSig) : Bool :=
     (match s.recv with
      | .ref => !s.retOther && !s.retArena && s.retAdt != some "ChunkIter" && s.retAdt != some "ChunkRawIter"
      | .refMut => !s.retOther && !s.retArena
-     | .none => !s.arenaArg
-     | .val => false)
+     | .none => true
+     | .val => true)
 
 def goodSigs (t : Sigs) : Bool :=
   allocNames.all (goodAlloc t) && ctorIds.all (goodCtor t) && exclNames.all (goodExcl t)
